@@ -47,6 +47,19 @@ func genC11(r *rt.Rand, tier string, idx int) *world.Scenario {
 		sc.Extra = map[string]int64{"bulk": int64(280 + r.Intn(60))}
 		keyPool = append(append([]string{}, c11Keys...), "b000", "b100", "b270", "b279")
 	}
+	if idx%30 == 11 {
+		// a fault below the adapter: one scan request of the TiKV client to the cluster is answered without a
+		// body while an iteration over several hundred keys (several requests) is under way
+		sc.Engine, sc.Class = "tikv", "tikv-scan-request-fault"
+		sc.Extra = map[string]int64{"bulk": int64(280 + r.Intn(60)), "tikv_scan_fault": int64(1 + r.Intn(5))}
+		keyPool = append(append([]string{}, c11Keys...), "b000", "b100", "b270", "b279")
+	}
+	if idx%30 == 23 {
+		// a fault below the adapter: one point read of the TiKV client (the existence or value check behind a
+		// condition) is answered with a key error
+		sc.Engine, sc.Class = "tikv", "tikv-get-request-fault"
+		sc.Extra = map[string]int64{"tikv_get_fault": int64(1 + r.Intn(10))}
+	}
 	nc := 1 + r.Intn(3)
 	vn := 0
 	val := func() string { vn++; return fmt.Sprintf("v%d", vn) }
@@ -164,6 +177,8 @@ type c11Iter struct {
 	desc   string
 	atEOF  bool
 	curVal string
+	// the injected broken scan request has surfaced in this iteration
+	faultSeen bool
 }
 
 func c11Custom(t *testing.T, sc *world.Scenario, out *Outcome) {
@@ -172,7 +187,7 @@ func c11Custom(t *testing.T, sc *world.Scenario, out *Outcome) {
 	if os.Getenv("VERIF_TRACE") != "" {
 		s.KeepTrace = true
 	}
-	w := &world.World{}
+	w := &world.World{Sc: sc}
 	inner, lazy, err := w.NewEngineFor(sc.Engine)
 	if err != nil {
 		out.Infra = err.Error()
@@ -220,6 +235,7 @@ func c11Custom(t *testing.T, sc *world.Scenario, out *Outcome) {
 			return
 		}
 	}
+	w.TiKVScanFaultArmed = true // (only has an effect in the tikv-scan-request-fault class)
 	done := 0
 	overlapped := false
 	inBatch := 0
@@ -244,9 +260,14 @@ func c11Custom(t *testing.T, sc *world.Scenario, out *Outcome) {
 				s.Yield("raw.op")
 				switch op.K {
 				case "get":
+					gf := w.TiKVGetFaultFired
 					v, err := st.Get(ctx, []byte(op.Key))
 					s.Note("get c%d %s -> %q %v", ci, op.Key, v, err)
 					mv, ok := model[op.Key]
+					if w.TiKVGetFaultFired > gf && err != nil && !errors.Is(err, storage.ErrKeyNotFound) {
+						out.probe("read-failed-on-broken-get-request")
+						continue
+					}
 					switch {
 					case !ok && !errors.Is(err, storage.ErrKeyNotFound):
 						viol("get-missing", "Get(%s) of a missing key returned (%q, %v), want ErrKeyNotFound", op.Key, v, err)
@@ -330,8 +351,16 @@ func c11Custom(t *testing.T, sc *world.Scenario, out *Outcome) {
 						inBatch--
 						out.probe("batch-open-across-steps")
 					}
+					gfBefore := w.TiKVGetFaultFired
 					err := bw.Commit(ctx)
 					s.Note("batch c%d {%s} -> %v %#v", ci, op.Val, err, err)
+					if w.TiKVGetFaultFired > gfBefore && err != nil && !errors.Is(err, storage.ErrCASFailed) {
+						// the read behind one of the batch's conditions failed below the adapter: the batch can not know
+						// whether the condition holds and must fail as a whole, with an error (nothing applied)
+						out.probe("batch-failed-on-broken-get-request")
+						attempts = append(attempts, attempt{client: ci, begin: beginStep, end: s.StepNo(), keys: map[string]bool{}})
+						continue
+					}
 					// evaluate the conditions sequentially inside the batch (later ops see earlier ones), at begin and at commit state
 					eval := func(base map[string]string) (bool, map[string]string) {
 						m := map[string]string{}
@@ -465,8 +494,13 @@ func c11Custom(t *testing.T, sc *world.Scenario, out *Outcome) {
 						}
 					}
 				case "iter":
+					firedBefore := w.TiKVScanFaultFired
 					it, err := st.Iter(ctx, []byte(op.Key), []byte(op.End), 0, uint64(op.Limit))
 					if err != nil {
+						if w.TiKVScanFaultFired > firedBefore {
+							out.probe("iteration-failed-on-broken-scan-request")
+							continue
+						}
 						viol("iter-error", "Iter(%s,%s) failed: %v", op.Key, op.End, err)
 						continue
 					}
@@ -514,7 +548,13 @@ func c11Custom(t *testing.T, sc *world.Scenario, out *Outcome) {
 							break
 						}
 						if err != nil {
-							viol("iterator-error", "%s Next failed: %v", it.desc, err)
+							if w.TiKVScanFaultFired > 0 && !it.faultSeen {
+								// the broken scan request surfaced as an error of the iteration: what it must do
+								it.faultSeen = true
+								out.probe("iteration-failed-on-broken-scan-request")
+							} else {
+								viol("iterator-error", "%s Next failed: %v", it.desc, err)
+							}
 							it.atEOF = true
 							break
 						}
@@ -561,9 +601,14 @@ func c11Custom(t *testing.T, sc *world.Scenario, out *Outcome) {
 					if it == nil || !it.valid || it.done {
 						continue
 					}
+					gfDel := w.TiKVGetFaultFired
 					err := st.DelCurrent(ctx, it.it)
 					cur, ok := model[it.cur]
 					holds := ok && cur == it.curVal
+					if w.TiKVGetFaultFired > gfDel && err != nil && !errors.Is(err, storage.ErrCASFailed) {
+						out.probe("batch-failed-on-broken-get-request")
+						continue
+					}
 					switch {
 					case err == nil && !holds:
 						viol("compare-and-delete-applied-wrongly", "DelCurrent(%s) succeeded although the key is now %q (iterator saw %q)", it.cur, cur, it.curVal)
@@ -602,7 +647,8 @@ func c11Custom(t *testing.T, sc *world.Scenario, out *Outcome) {
 		out.Infra = "raw clients did not finish"
 		return
 	}
-	// final: full scan == model
+	// final: full scan == model (the harness' own scan is not to be faulted)
+	w.TiKVScanFaultArmed = false
 	it, err := st.Iter(ctx, []byte{0}, bytes.Repeat([]byte{0xff}, 8), 0, 0)
 	if err == nil {
 		got := map[string]string{}
